@@ -126,15 +126,19 @@ struct P_C15
 #endif
     static Case gen(Choice& ch)
     {
-        Case c; c.g = gen_case(ch, ch.chance(1, 3) ? gg::RECOVERY : gg::ANY, 6, true, true);
+        Case c; c.g = gen_case(ch, ch.chance(1, 3) ? gg::RECOVERY : gg::ANY, 6, true, true, true);
+        std::vector<gg::Input> deep_ones; for (auto& in : c.g.inputs) if (in.text.size() > 900) deep_ones.push_back(in);
         if (c.g.inputs.size() > 40) { eng::Rng r = ch.fork(); std::vector<gg::Input> keep; for (int i = 0; i < 40; ++i) keep.push_back(c.g.inputs[r.below(uint32_t(c.g.inputs.size()))]); c.g.inputs = keep; }
+        size_t first_deep = c.g.inputs.size(); for (auto& in : deep_ones) c.g.inputs.push_back(in);
         int T = ch.chance(1, 3) ? 1 : 2 + int(ch.below(7));
         for (int t = 0; t < T; ++t)
         {
             std::vector<Op> ops; int n = 3 + int(ch.below(10));
             for (int i = 0; i < n; ++i)
             {
-                Op op; op.input = c.g.inputs.empty() ? 0 : int(ch.below(uint32_t(c.g.inputs.size()))); op.kind = int(ch.weighted({6, 3, 1})); op.verbose = ch.chance(1, 4); op.stream = int(ch.below(3)); op.buffer = int(ch.below(2)); op.yields = int(ch.below(4));
+                Op op; op.input = c.g.inputs.empty() ? 0 : int(ch.below(uint32_t(c.g.inputs.size())));
+                if (!deep_ones.empty() && ch.chance(1, 3)) op.input = int(first_deep + ch.below(uint32_t(deep_ones.size())));    // deep parses: the stacks outgrow their reservation
+                op.kind = int(ch.weighted({6, 3, 1})); op.verbose = ch.chance(1, 4); op.stream = int(ch.below(3)); op.buffer = int(ch.below(2)); op.yields = int(ch.below(4));
                 ops.push_back(op);
             }
             c.threads.push_back(ops);
